@@ -75,6 +75,10 @@ pub struct FileSpec {
     /// writes two sections for the one path, `deleted file mode 120000` and `new file mode 100644`.
     #[serde(default)]
     pub was_symlink: bool,
+    /// The first line of the file ends in a comment of this many KiB of filler (large files: a
+    /// generated table, a dump). `#`-comment languages only.
+    #[serde(default)]
+    pub pad_kib: usize,
 }
 
 /// What the symbolic link of a `was_symlink` file pointed to.
@@ -675,6 +679,7 @@ fn render_block(
             0 => "loop while i<n ",
             1 => "see a<b, x <- y: ",
             2 => "<p> note </p> ",
+            3 => "gr\u{f6}\u{df}er als 10 \u{2013} \u{4e16}\u{754c}: ",
             _ => "",
         }
     };
@@ -747,6 +752,10 @@ pub fn render_file(f: &FileSpec, poisoned: bool) -> RenderedFile {
     match wrapper {
         Some((open, _)) => lines.push(open.to_string()),
         None => lines.push("h0=0".to_string()),
+    }
+    if f.pad_kib > 0 && leader == "#" && wrapper.is_none() {
+        lines[0].push_str("  # ");
+        lines[0].push_str(&"filler ".repeat(f.pad_kib * 1024 / 7 + 1));
     }
     if f.bom {
         lines[0].insert(0, '\u{feff}');
